@@ -295,6 +295,12 @@ func h6FileRuntime(env *Env, c *H1Cfg, hr *h1Run, stats simrt.Stats, kept []int)
 			}
 			env.Hit("h6.stage_rate_checked")
 		}
+		if st.Mode == "users" && st.UsersConc > 0 && len(handles) > st.UsersConc {
+			// (an upper bound that holds whatever the iterations do: a users stage has its own users, those of an earlier
+			// users stage start nothing once their stage is over, however long their last iteration takes)
+			env.Violate("C15", "stage-behaviour", "file/users-of-an-earlier-stage", "inside users stage %s (concurrency %d) iterations began on %d different workers", st.ID, st.UsersConc, len(handles))
+			return
+		}
 		if whole && st.Mode == "users" && st.UsersConc > 0 && st.DurNs > 60*ms {
 			if len(handles) != st.UsersConc && st.UsersConc <= fe.Concurrency*100 {
 				env.Violate("C15", "stage-behaviour", "file/defaults", "users stage %s ran with %d concurrent users, the configuration (stage or default section) says %d", st.ID, len(handles), st.UsersConc)
